@@ -1065,8 +1065,8 @@ struct SchedHarness : Harness {
 			prob["data"] = Json(dk[gen.below(15)]);
 			static const char *wk[] = {"ones", "random", "mixed"};
 			prob["weights"] = Json(wk[gen.below(3)]);
-			{ Rng ws(runseed, "weight_scale"); static const int we[] = {-5, -4, -3, -2, 2, 4}; if (ws.chance(0.12)) prob["wscale_exp"] = Json(we[ws.below(6)]); }
-			// (not below 1e-5, and never on top of the 'mixed' pattern's weights of 1e-3: BLOCK3's stopping tolerance is absolute,
+			{ Rng ws(runseed, "weight_scale"); static const int we[] = {-6, -5, -4, -3, 2, 4}; if (ws.chance(0.12)) prob["wscale_exp"] = Json(we[ws.below(6)]); }
+			// (not below 1e-6, and never on top of the 'mixed' pattern's weights of 1e-3: BLOCK3's stopping tolerance is absolute,
 			// n*eps*1e5, so with effective weights of 1e-9 and less the unchanged solver stops early and the monotonic fit differs
 			// from the unconstrained one by several per cent - observed in the thorough tier at 1e-6/1e-7, a consequence of the
 			// solver's stated tolerance, left outside the generated range)
